@@ -60,6 +60,11 @@ class DrawTerms(Terms):
                 return ("draw", kind, d[0])
             fn = d[3]["func"].get("fn", {})
             rp = fn.get("res_path") or fn.get("path") or ""
+            hk = unknown_helper(self.F, fn) if plain and depth < 60 else None
+            if hk is not None:
+                body = fn_body(self.F, hk, [self.of_operand(a, depth + 1) for a in d[3]["args"]])
+                if body is not None:
+                    return body
             if plain and fn.get("res_krate", fn.get("krate")) == "rand_distr" and not rp.startswith("<") and not fn.get("trait"):
                 # a crate-local associated function: keep its type in the name (`Normal::new` -> Normal_new)
                 segs = [x.split("<")[0] for x in rp.split("::") if x and not x.startswith("<")]
@@ -118,6 +123,59 @@ def closure_body(F, key, caps, args):
     return sub(t)
 
 
+VOCAB = None       # identifiers the reference being compared uses (set by rules_c01.run_specs); None = inline nothing
+
+
+def fn_body(F, key, args):
+    """The value a straight-line crate-local function returns, with its arguments substituted (a helper the reference does not know:
+    `fn squeeze_accepts(u, x2) -> bool { u < 1 - 0.0331 * x2 * x2 }` is the comparison it computes)."""
+    inst = F.by_key.get(key)
+    if inst is None or not inst.get("full") or inst.get("krate") != "rand_distr" or inst.get("closure_of"):
+        return None
+    if any(b["term"].get("k") == "switch" for b in inst["blocks"] if b.get("term")) or FnInfo(F, inst).loops:
+        return None
+    T = DrawTerms(F, inst)
+    if len(T.body.defs.get(0, [])) != 1:
+        return None
+    t = T.of_local(0)
+    names = {i: (inst["locals"][i].get("name") or "_%d" % i) for i in range(1, inst["arg_count"] + 1)}
+    if len(args) != inst["arg_count"]:
+        return None
+
+    def has_draw(x):
+        return isinstance(x, tuple) and (x[:1] == ("draw",) or any(has_draw(y) for y in x))
+    if has_draw(t):
+        return None
+
+    def sub(x):
+        if not isinstance(x, tuple):
+            return x
+        if x[0] == "var":
+            for i in range(1, inst["arg_count"] + 1):
+                if x[1] == names.get(i):
+                    return args[i - 1]
+            return x
+        return tuple(sub(y) for y in x)
+    return sub(t)
+
+
+def unknown_helper(F, fn):
+    """Key of the crate-local function a call resolves to, if the reference's vocabulary does not mention it."""
+    if VOCAB is None or fn.get("res_krate", fn.get("krate")) != "rand_distr" or fn.get("trait"):
+        return None
+    key = fn.get("key")
+    rp = fn.get("res_path") or fn.get("path") or ""
+    segs = [x.split("<")[0] for x in rp.split("::") if x and not x.startswith("<")]
+    if not key or not segs:
+        return None
+    cands = {segs[-1]}
+    if len(segs) >= 2:
+        cands.add("%s_%s" % (segs[-2], segs[-1]))
+    if cands & VOCAB:
+        return None
+    return key
+
+
 def draw_kind(F, t):
     """Name of the distribution a call terminator draws from, or None if it is not a draw."""
     fn = t["func"].get("fn", {})
@@ -155,6 +213,14 @@ def _dist_name(p):
     return s.rsplit("::", 1)[-1]
 
 
+def carried_names(F, inst, multi=None):
+    """Source names of the named loop-carried (multiply assigned) locals, in declaration order."""
+    if multi is None:
+        T = DrawTerms(F, inst)
+        multi = {l for l, ds in T.body.defs.items() if len([d for d in ds if d[2] in ("assign", "call")]) > 1 and l != 0}
+    return [inst["locals"][l]["name"] for l in sorted(multi) if inst["locals"][l].get("name")]
+
+
 def summarize_ts(F, inst, max_paths=600):
     """Transition-system summary: the function is cut at its entry and at every loop header; a *segment* is a feasible acyclic path from
     one cut point to the next cut point (or to `return`).  At a loop-header cut every multiply-assigned local is a symbolic variable
@@ -175,8 +241,11 @@ def summarize(F, inst, max_paths=400, ts=False):
     lname = {}
     used = {}
     cnt = {}
+    import frozen
+    ren = frozen.carried(inst, carried_names(F, inst, multi))
     for l in sorted(multi):
         nm_ = inst["locals"][l].get("name") or "_%d" % l
+        nm_ = ren.get(nm_, nm_)          # a renamed loop variable stands for the name the reference uses (frozen.py)
         if nm_ in used:
             # a second loop-carried local of the same source name: numbered by order of declaration (not by its MIR index, which moves with unrelated edits)
             cnt[nm_] = cnt.get(nm_, 1) + 1
@@ -339,6 +408,23 @@ def summarize(F, inst, max_paths=400, ts=False):
                         lit = ("eq" if m == "eq" else "ne", atom_id("eq", a, b2))
                     elif m in BOOL_CALLS and d[3]["args"]:
                         lit = ("cmp", atom_id("call:" + m, T.of_operand(d[3]["args"][0]), ("const", 0)))
+                    elif unknown_helper(F, fn) is not None:
+                        # a boolean helper the reference does not know: the comparison it computes
+                        bt = fn_body(F, unknown_helper(F, fn), [T.of_operand(a_) for a_ in d[3]["args"]])
+                        for _ in range(4):
+                            if isinstance(bt, tuple) and bt[:2] == ("call", "not") and len(bt) == 3:
+                                negate = not negate
+                                bt = bt[2]
+                        if isinstance(bt, tuple) and bt[0] == "call" and len(bt) == 4 and (str(bt[1]).startswith("cmp_") or bt[1] in CMP or bt[1] in ("eq", "ne")):
+                            op_ = bt[1][4:] if str(bt[1]).startswith("cmp_") else bt[1]
+                            if op_ in CMP:
+                                kind, swap = CMP[op_]
+                                a, b2 = bt[2], bt[3]
+                                if swap:
+                                    a, b2 = b2, a
+                                lit = ("cmp", atom_id(kind, a, b2))
+                            elif op_ in ("eq", "ne"):
+                                lit = ("eq" if op_ == "eq" else "ne", atom_id("eq", bt[2], bt[3]))
                 elif d is not None and d[2] == "assign":
                     rv = d[3]["rv"]
                     if rv["k"] == "binop" and rv["op"].lower() in CMP:
